@@ -578,8 +578,14 @@ func c09(c *core.Ctx) {
 					b, f, isLd := core.FieldLoad(args[0])
 					ld, _ := args[0].(ssa.Instruction)
 					ok = isLd && f == lastConfirm && b != nil && ld != nil && core.Dominates(ld, as)
+					if ok {
+						// read in the same iteration as the assignment: a value read before the loop is the previous root only in the first step
+						_, hl := core.LoopOf(ld.Block())
+						_, hp := core.LoopOf(p.Block())
+						ok = hl == hp
+					}
 				}
-				c.Check("SetStableBlock:clear(previous LastConfirm, item)"+suffix(i, len(prunes)), "value-flow", ok, p.Pos(), "clear receives the previous LastConfirm (read before the assignment) as old root and the committed block as new root")
+				c.Check("SetStableBlock:clear(previous LastConfirm, item)"+suffix(i, len(prunes)), "value-flow", ok, p.Pos(), "clear receives the previous LastConfirm (read before the assignment, in the same iteration of the commit loop) as old root and the committed block as new root")
 			}
 		}
 
